@@ -33,6 +33,7 @@ type refView struct {
 }
 
 type arrRoot[T num, A arr[T, A]] struct {
+	tail  int       // extra elements of the Go backing slice beyond the array
 	store []float64 // reference storage
 	goBuf []T       // backing slice of the Go root
 	cb    *cbuf     // memory of the C root
@@ -166,6 +167,16 @@ func arraysRun[T num, A arr[T, A]](k kit[T, A], rc *RunCtx, o *Outcome) {
 		}
 		n := product(dims)
 		r := &arrRoot[T, A]{dims: dims, store: make([]float64, n), goBuf: make([]T, n)}
+		if w.Bool(30) {
+			// the caller's backing slice is longer than the array needs (ArrayFromSlice over a
+			// bigger buffer): the tail is not part of the array and must never be touched or exposed
+			r.tail = 1 + w.Choose(7)
+			r.goBuf = make([]T, n+r.tail)
+			for i := 0; i < r.tail; i++ {
+				r.goBuf[n+i] = T(99)
+			}
+			o.probe("go_root_over_an_oversized_backing_slice")
+		}
 		r.cb = allocC(n*k.cSize, true, guardBefore)
 		for i := 0; i < n; i++ {
 			v := uniq()
@@ -202,6 +213,12 @@ func arraysRun[T num, A arr[T, A]](k kit[T, A], rc *RunCtx, o *Outcome) {
 					} else {
 						x.fail(family, "storage-differs", "c/storage", "after %s: C buffer of root %d element %d is %v, reference %v", after, ri, i, k.cGet(r.cb, i), e)
 					}
+					return
+				}
+			}
+			for i := 0; i < r.tail; i++ {
+				if r.goBuf[len(r.store)+i] != T(99) {
+					x.fail(family, "write-outside-array", "go/tail", "after %s: element %d of the Go backing slice, beyond the array of root %d, was overwritten with %v", after, len(r.store)+i, ri, r.goBuf[len(r.store)+i])
 					return
 				}
 			}
@@ -835,6 +852,31 @@ func arraysRun[T num, A arr[T, A]](k kit[T, A], rc *RunCtx, o *Outcome) {
 		default:
 			if w.Choose(400) == 399 {
 				hugeCProbe(k, x, w)
+			} else if w.Choose(6) == 5 {
+				// a failing call: an out-of-range block write on a scratch array that is not in the
+				// pool panics part-way and is recovered by the caller; nothing is asserted about the
+				// scratch array, but the valid calls that follow must be unaffected
+				rank := 1 + w.Choose(3)
+				sd, big, loc := make([]int, rank), make([]int, rank), make([]int, rank)
+				for d := range sd {
+					sd[d] = 2 + w.Choose(3)
+					big[d] = sd[d]
+				}
+				big[w.Choose(rank)] += 1 + w.Choose(3)
+				what := fmt.Sprintf("scratch%v.ApplySlice(source %v: out of range, recovered)", sd, big)
+				x.log = append(x.log, what)
+				func() {
+					defer func() { recover() }()
+					k.newGo(sd).Slice(loc, sd, nil).ApplySlice(loc, nil, makeSource(k, 1, big, make([]float64, product(big)), w))
+				}()
+				func() {
+					defer func() { recover() }()
+					// non-contiguous destination: the element-by-element path
+					sd2 := append([]int(nil), sd...)
+					sd2[rank-1]++
+					k.newGo(sd2).Slice(loc, sd, nil).ApplySlice(loc, nil, makeSource(k, 1, big, make([]float64, product(big)), w))
+				}()
+				o.probe("failing_call_on_unrelated_array_before_valid_calls")
 			} else if w.Bool(50) {
 				extremeMinMax(k, x, w)
 			} else if len(roots) < 3 && w.Bool(30) {
@@ -855,6 +897,12 @@ func checkStoresBulk[T num, A arr[T, A]](k kit[T, A], x *arrCtx, roots []*arrRoo
 			}
 			if !sameBits(k, k.cGet(r.cb, i), e) {
 				x.fail("cdiff:bulk", "c-storage-differs", "c/bulk", "after %s: C buffer of root %d element %d is %v, the Go-backed array and the reference have %v", after, ri, i, k.cGet(r.cb, i), e)
+				return
+			}
+		}
+		for i := 0; i < r.tail; i++ {
+			if r.goBuf[len(r.store)+i] != T(99) {
+				x.fail("bulk", "write-outside-array", "go/tail", "after %s: element %d of the Go backing slice, beyond the array of root %d, was overwritten with %v", after, len(r.store)+i, ri, r.goBuf[len(r.store)+i])
 				return
 			}
 		}
@@ -962,6 +1010,28 @@ func helperChecks(x *arrCtx, w *simrt.Tape) {
 			return
 		}
 		acc *= v[i]
+	}
+	// large operands (flat indices and extents of arrays with billions of elements): IDivMod and
+	// Offsets against their arithmetic definitions, no array needed
+	{
+		ld := []int{1 + w.Choose(7), 1 << uint(10+w.Choose(14)), 1000 + w.Choose(4000000)}
+		lo := data.Offsets(ld)
+		if lo[2] != 1 || lo[1] != ld[2] || lo[0] != ld[1]*ld[2] {
+			x.fail("bulk", "helper-differs", "helper/Offsets", "Offsets(%v) = %v", ld, lo)
+			return
+		}
+		total := ld[0] * ld[1] * ld[2]
+		for _, num := range []int{total - 1, total / 2, 1<<31 - 1, 1 << 31, 1<<31 + 12345, 3000000000, 1<<32 - 1, 1 << 32, 1<<33 + 7} {
+			if num >= total || num < 0 {
+				continue
+			}
+			got := data.IDivMod(num, lo, ld)
+			want := []int{(num / lo[0]) % ld[0], (num / lo[1]) % ld[1], (num / lo[2]) % ld[2]}
+			if !eqInts(got, want) {
+				x.fail("bulk", "helper-differs", "helper/IDivMod", "IDivMod(%d,%v,%v) = %v, arithmetic gives %v", num, lo, ld, got, want)
+				return
+			}
+		}
 	}
 	// IDivMod inverts the row-major flattening; Increment enumerates in row-major order
 	idx := make([]int, n)
